@@ -372,13 +372,13 @@ PROPS["C05"] = {
              "SUBSEQUENCE of the hand-off sequence (order kept, nothing torn, merged, duplicated or invented, each line terminated once) and "
              "#handed - #received == slow_conn drop counter delta. Non-trivial: (writer) a write straddling the buffer boundary AND a write longer "
              "AND one shorter than the buffer; (conn) a line longer and a line shorter than iobuf with a pause or a run longer than the flush period. "
-             "Distinct = hash(parameters, op/length sequence)."),
+             "Distinct = hash(parameters, op/length sequence). pausing_endpoint (own sub-check, one case costs the pause): the endpoint stays connected but reads nothing for 0.5-8 s while 8-24 MB are handed in (16 KiB receive buffer, iobuf 256 B..2 MB), then reads on: same stream oracle - the received lines are a subsequence of the handed-off ones, in order, whole, none twice, and #absent = slow_conn delta."),
     "level_text": "Model-based testing of the buffered writer under every generated write/flush interleaving, plus generated end-to-end runs over real TCP with an exact subsequence + drop-accounting oracle; holds on all generated.",
     "level_note": "In the end-to-end layer the write/flush interleavings come from real timers and the scheduler; the writer layer covers them systematically. Pickle mode draws only representable lines (others are C16's subject). direction=out is recorded, not asserted.",
     "technique": "property-based testing (rapid): state-machine model of the writer; end-to-end subsequence/accounting oracle over loopback TCP with sentinel completion",
     "assumptions": ["loopback TCP delivers bytes in order", "one goroutine writes a connection in FIFO order (sentinel completion)"],
-    "quick": [R("TestPropBufWriter", 20000, steps=40), R("TestPropHealthyConn", 120)],
-    "thorough": [R("TestPropBufWriter", 300000, shards=4, steps=60, timeout=2400), R("TestPropHealthyConn", 500, shards=12, timeout=2400)],
+    "quick": [R("TestPropBufWriter", 20000, steps=40), R("TestPropHealthyConn", 120), R("TestPropPausingEndpoint", 4)],
+    "thorough": [R("TestPropBufWriter", 300000, shards=4, steps=60, timeout=2400), R("TestPropHealthyConn", 500, shards=10, timeout=2400), R("TestPropPausingEndpoint", 25, shards=4, timeout=2400)],
 }
 
 PROPS["C06"] = {
@@ -392,7 +392,7 @@ PROPS["C06"] = {
              "steady-state accounting - endpoint healthy or throttled for the whole case: after completion (sentinel line through the same route) "
              "#handed = #received + slow_conn delta and every received line is intact; endpoint absent with spooling off: conn_down_no_spool "
              "delta = #handed after a Flush barrier. stuttering_endpoint (own sub-check, one case costs the pause): an endpoint that stays connected but reads nothing "
-             "for 11-14 s under traffic far beyond every buffer and then resumes -- same oracle as a healthy one. "
+             "for 3-14 s under traffic far beyond every buffer and then resumes -- same oracle as a healthy one. "
              "silent_endpoint (own sub-check): an address that neither accepts nor refuses (listen backlog 0 with a full accept queue: SYNs are swallowed, "
              "every dial hangs) - either the destination's address from the start (spooling off: the 'down' steady state, conn_down_no_spool delta = #handed) or "
              "the target of an admin re-address request (UpdateDestination addr=...) issued in the middle of the traffic against a healthy endpoint, whose dial "
@@ -404,7 +404,7 @@ PROPS["C06"] = {
     "level_note": "A wall-clock bound is an inherently fragile oracle: it is three orders of magnitude above normal and only a repeated hit is reported. Receive buffers are set on the listening socket (shrinking an established connection's buffer makes the kernel drop in-flight data).",
     "technique": "property-based testing (rapid) with fault injection at the endpoint: latency-bound watchdog + accounting identities",
     "assumptions": ["loopback TCP", "the scheduler gives the dispatcher goroutine CPU time within the bound"],
-    "quick": [R("TestPropBadEndpoint", 90), R("TestPropSilentEndpoint", 8), R("TestPropStutteringEndpoint", 2)],
+    "quick": [R("TestPropBadEndpoint", 90), R("TestPropSilentEndpoint", 8), R("TestPropStutteringEndpoint", 3)],
     "thorough": [R("TestPropBadEndpoint", 150, shards=8, timeout=3000), R("TestPropSilentEndpoint", 40, shards=4, timeout=3000), R("TestPropStutteringEndpoint", 12, shards=4, timeout=3000)],
 }
 
